@@ -12,6 +12,7 @@ from ..envs import EnvA
 from ..tables import routing as T
 from ..tables import scheduling as TS
 from .C01 import check_literals, mask_root, bound_state_exact
+from ..model import AnalysisError
 
 FLOOR = 118
 EXPLANATION = (
@@ -105,6 +106,30 @@ def extra_rules(ctx: Ctx, env: EnvA, sl, root, lits, bool_cells):
                construct=f"{sl.fi.qualname}:{lit.name}:alternative-missing")
 
 
+def state_the_mask_reads(ctx: Ctx):
+    """C05.k the quantities a mask compares against follow their reference recurrence in `_step`: an accumulator that is not
+    restarted at the depot, grows with the wrong inputs, or a clock that counts a service time twice makes the mask compare
+    against MORE than was used -- feasible actions (the exact fill, the last reachable customer) are closed.  These are the
+    exact-form rules C01.e (restart at the depot), C01.h (direction of every input) and C01.t (clock formula) of C01, run here
+    because over-counting hides solutions just as under-counting admits infeasible ones; and the mask itself is computed row
+    by row (the batch-axis engine of C04 on the mask sinks of the routing environments: a leg length taken as ONE norm over the
+    whole batch grows every instance's tour by the legs of all others)."""
+    from . import C01
+    n0 = len(ctx.obligations)
+    for cname, (path, family) in T.ENVS.items():
+        env = EnvA(ctx.repo, path, cname)
+        C01.rule_e(ctx, env)
+        C01.rule_h(ctx, env)
+        C01.clock_update(ctx, env)
+    for o in ctx.obligations[n0:]:
+        o.rule = "C05.k"
+    if len(ctx.obligations) - n0 < 10:
+        raise AnalysisError(f"state-update obligations lost: {len(ctx.obligations) - n0}")
+    from .C04 import batch_rows
+    batch_rows(ctx, "C05.k", envs=tuple(T.ENVS), meths=("_step", "get_action_mask"),
+               sink_ok=lambda cname, meth, sink: sink == "return" or sink in ("cell:action_mask",))
+
+
 def run(ctx: Ctx):
     for cname, (path, family) in T.ENVS.items():
         env = EnvA(ctx.repo, path, cname)
@@ -129,6 +154,7 @@ def run(ctx: Ctx):
             # slice-wise in-place refinements: decided per column class by truth table (shared with C01.p)
             from .C01 import mdcpdp_mask_classes
             mdcpdp_mask_classes(ctx, env, "tighter")
+    state_the_mask_reads(ctx)
     wait_not_pruned_by_default(ctx)
     mtsp_depot_column(ctx)
     from .C01 import mtsp_agent_counter
